@@ -10,7 +10,8 @@ Clauses:
      wrapped memory counting nothing                                   C05_allocated_is_sum
   the buffers in that sum are exactly the live ones                    C05_buffers_are_live
   maxMemoryAllocated() = largest value memoryAllocated() has taken     C05_max_is_running_max
-  everything released => memoryAllocated() = 0                         C05_zero_when_released
+  everything released => memoryAllocated() = 0                         C05_zero_when_released,
+                                                                       C05_freeall_returns_to_zero
 Histories: arbitrary `ops : List Op` — malloc, malloc with source, use_host_pointer with/without
 own_host_pointer, wrapMemory, clone, slices, releases, pools created, grown, shrunk, re-aligned, freed.
 -/
@@ -62,16 +63,25 @@ theorem C05_trace_records (d : Dev) (n : Nat) :
 /-- once every memory object and pool is released, memoryAllocated() is 0 -/
 theorem C05_zero_when_released (ops : List Op) (hm : (run Gen.poolCfg ops).mems = [])
     (h0 : (run Gen.poolCfg ops).pool 0 = none) (h1 : (run Gen.poolCfg ops).pool 1 = none) :
-    (run Gen.poolCfg ops).dev.alloc = 0 := by
-  have h := run_inv C05_source_is_repaired ops
-  have hb : (run Gen.poolCfg ops).bufs = [] := by
-    cases hbs : (run Gen.poolCfg ops).bufs with
-    | nil => rfl
-    | cons b bs =>
-      obtain ⟨m, hmm, _⟩ := h.bufLive b (by rw [hbs]; exact List.mem_cons_self)
-      rw [hm] at hmm; cases hmm
-  rw [h.account, hb, h0, h1]
-  rfl
+    (run Gen.poolCfg ops).dev.alloc = 0 :=
+  alloc_zero_of_released (run_inv C05_source_is_repaired ops) hm h0 h1
+
+/-- and that situation is reached by actually releasing everything: after `freeall` (every memory
+    object released one by one, then both pools freed) nothing is live and memoryAllocated() is 0,
+    whatever the history before -/
+theorem C05_freeall_returns_to_zero (ops : List Op) :
+    (step Gen.poolCfg (run Gen.poolCfg ops) .freeall).1.mems = [] ∧
+    (step Gen.poolCfg (run Gen.poolCfg ops) .freeall).1.pool 0 = none ∧
+    (step Gen.poolCfg (run Gen.poolCfg ops) .freeall).1.pool 1 = none ∧
+    (step Gen.poolCfg (run Gen.poolCfg ops) .freeall).1.dev.alloc = 0 :=
+  step_freeall C05_source_is_repaired (run_inv C05_source_is_repaired ops)
+
+/-- a slot names one memory object: device memories have distinct slots, none of which is the slot
+    of a pool reservation (so `release k` releases exactly one object) -/
+theorem C05_slot_names_one_object (ops : List Op) :
+    ((run Gen.poolCfg ops).mems.map (·.slot)).Nodup ∧
+    ∀ m ∈ (run Gen.poolCfg ops).mems, ∀ i p, (run Gen.poolCfg ops).pool i = some p → findSlot m.slot p.resv = none :=
+  ⟨(run_inv C05_source_is_repaired ops).memSlots, (run_inv C05_source_is_repaired ops).cross⟩
 
 example : ∃ ops, (run Gen.poolCfg ops).mems = [] ∧ (run Gen.poolCfg ops).pool 0 = none ∧
     (run Gen.poolCfg ops).dev.maxAlloc = 18 :=
